@@ -1,14 +1,13 @@
 ------------------------------- MODULE MCAnsi -------------------------------
-(* Model-checking wrapper for AnsiFsm: constants a cfg file cannot hold, the *)
-(* bound on the input length and on the number of ignored SGR parameters.    *)
+(* Model-checking wrapper for AnsiFsm: constants a cfg file cannot hold and   *)
+(* the bound on the number of ignored SGR parameters (the input length is    *)
+(* unbounded here; MCAnsiB bounds it).                                       *)
 EXTENDS AnsiFsm
 
-CONSTANTS MaxLevel,        \* input sequences of at most MaxLevel - 1 symbols (0: unbounded)
-          MaxStack         \* ESC [ n ; n ; n ; ... m : parameters kept on the stack
+CONSTANTS MaxStack         \* ESC [ n ; n ; n ; ... m : parameters kept on the stack
 
 Chars2 == {" ", "x"}
 Chars3 == {" ", "x", "y"}
-LevelBound == MaxLevel = 0 \/ TLCGet("level") < MaxLevel
 StackBound == Len(stack) <= MaxStack
 
 \* behaviours for the chunk-independence replay (tlc -simulate): the same machine, with the
